@@ -138,7 +138,8 @@ HARNESSES = {
 
 def bound(tier):
   if tier == 'quick':
-    return 'threads: 6 harnesses (2-3 threads), all schedules with <=1 preemption, shared-state granularity; sequential depth 4'
+    return ('threads: 7 harnesses (2-3 threads), all schedules with <=1 preemption at shared-state granularity plus <=3 (2 threads) / '
+            '<=2 (3 threads) preemptions at points inside the code that touches the store concerned; sequential depth 4')
   return ('threads: 6 harnesses, all schedules with <=2 preemptions at shared-state granularity and <=1 at '
           'all-gin-lines granularity; sequential depth 6')
 
@@ -147,9 +148,15 @@ def plan(tier):
   """(harness, preemption bound, granularity) triples."""
   out = []
   for h in HARNESSES:
+    focus = 'focus:singleton,_SINGLETONS' if 'singleton' in h else 'focus:_OPERATIVE_CONFIG,operative'
     if tier == 'quick':
       out.append((h, 1, 'shared'))
+      if len(HARNESSES[h]()) == 2:
+        out.append((h, 3, focus))
+      else:
+        out.append((h, 2, focus))
     else:
+      out.append((h, 4 if len(HARNESSES[h]()) == 2 else 3, focus))
       out.append((h, 2, 'shared'))
       out.append((h, 1, 'all'))
   return out
